@@ -45,16 +45,81 @@ func typeIs(t types.Type, s string) bool { return t.String() == s }
 
 // framingFns: the framed read ([]byte, error) <- io.Reader and write error <- (io.Writer, []byte) helpers of a package.
 func framingFns(w *World, pkg string) (rd, wr *ssa.Function) {
-	for _, f := range pkgFuncs(w, pkg) {
+	isRd := func(f *ssa.Function) bool {
 		ps, rs := f.Signature.Params(), f.Signature.Results()
-		switch {
-		case ps.Len() == 1 && rs.Len() == 2 && typeIs(ps.At(0).Type(), "io.Reader") && typeIs(rs.At(0).Type(), "[]byte") && isErrorType(rs.At(1).Type()):
-			if len(callsTo(f, "io.ReadFull")) > 0 || len(callsTo(f, "encoding/binary.Read")) > 0 || len(callsIn(f)) > 0 {
-				rd = f
+		return f.Signature.Recv() == nil && f.Parent() == nil && ps.Len() == 1 && rs.Len() == 2 && typeIs(ps.At(0).Type(), "io.Reader") && typeIs(rs.At(0).Type(), "[]byte") && isErrorType(rs.At(1).Type()) && len(callsIn(f)) > 0
+	}
+	isWr := func(f *ssa.Function) bool {
+		ps, rs := f.Signature.Params(), f.Signature.Results()
+		return f.Signature.Recv() == nil && f.Parent() == nil && ps.Len() == 2 && rs.Len() == 1 && typeIs(ps.At(0).Type(), "io.Writer") && typeIs(ps.At(1).Type(), "[]byte") && isErrorType(rs.At(0).Type())
+	}
+	// a thin delegation (one block, one call, of the same kind, the parameters handed on) stands for its target: the
+	// framing code may live in another file or package of the repository
+	resolve := func(f *ssa.Function, same func(*ssa.Function) bool) *ssa.Function {
+		for i := 0; i < 3 && f != nil; i++ {
+			if len(f.Blocks) != 1 {
+				return f
 			}
-		case ps.Len() == 2 && rs.Len() == 1 && typeIs(ps.At(0).Type(), "io.Writer") && typeIs(ps.At(1).Type(), "[]byte") && isErrorType(rs.At(0).Type()):
-			wr = f
+			calls := callsIn(f)
+			if len(calls) != 1 {
+				return f
+			}
+			g := calls[0].Common().StaticCallee()
+			if g == nil || !w.InRepo(g) || g.Blocks == nil || !same(g) || len(calls[0].Common().Args) != len(f.Params) {
+				return f
+			}
+			for j, a := range calls[0].Common().Args {
+				if a != ssa.Value(f.Params[j]) {
+					return f
+				}
+			}
+			f = g
 		}
+		return f
+	}
+	if w.frameBody == nil {
+		w.frameBody = map[*ssa.Function]*ssa.Function{}
+	}
+	for _, f := range pkgFuncs(w, pkg) {
+		switch {
+		case isRd(f):
+			rd = f
+			w.frameBody[f] = resolve(f, isRd)
+		case isWr(f):
+			wr = f
+			w.frameBody[f] = resolve(f, isWr)
+		}
+	}
+	if rd == nil || wr == nil {
+		// none of its own: the ones its code calls
+		for _, f := range w.FuncsOfPkg(pkg) {
+			for _, call := range callsIn(f) {
+				g := call.Common().StaticCallee()
+				if g == nil || !w.InRepo(g) || g.Blocks == nil {
+					continue
+				}
+				if rd == nil && isRd(g) {
+					rd = g
+					w.frameBody[g] = resolve(g, isRd)
+				}
+				if wr == nil && isWr(g) {
+					wr = g
+					w.frameBody[g] = resolve(g, isWr)
+				}
+			}
+		}
+	}
+	return
+}
+
+// framingBodies: the functions holding the framing code of pkg (framingFns with thin delegations resolved).
+func framingBodies(w *World, pkg string) (rd, wr *ssa.Function) {
+	rd, wr = framingFns(w, pkg)
+	if b := w.frameBody[rd]; b != nil {
+		rd = b
+	}
+	if b := w.frameBody[wr]; b != nil {
+		wr = b
 	}
 	return
 }
